@@ -167,6 +167,14 @@ def check_lsq(case, ctx):
 
     # metamorphic relations ---------------------------------------------------------
     def same(d2, what, rtol):
+        if not fixed_delta:
+            # fmin stops on an *absolute* xtol of 1e-4 in delta: for delta ~ 0.02 that is 0.5 % of delta, and alpha, beta
+            # (closed form at the delta in force) move proportionally
+            d_tol = max(rtol * abs(delta), 3e-4)
+            ab_tol = rtol * max(1.0, d_tol / max(rtol * abs(delta), 1e-300))
+            if abs(float(d2.delta) - delta) > d_tol or rel(float(d2.alpha), alpha) > ab_tol or rel(float(d2.beta), beta) > ab_tol:
+                ctx.violation(f"{what}:{wkind}", f"{tag}: ({alpha!r},{beta!r},{delta!r}) vs ({float(d2.alpha)!r},{float(d2.beta)!r},{float(d2.delta)!r})")
+            return
         if rel(float(d2.alpha), alpha) > rtol or rel(float(d2.beta), beta) > rtol or rel(float(d2.delta), delta) > max(rtol, 0 if fixed_delta else 2e-3):
             ctx.violation(f"{what}:{wkind}", f"{tag}: ({alpha!r},{beta!r},{delta!r}) vs ({float(d2.alpha)!r},{float(d2.beta)!r},{float(d2.delta)!r})")
 
